@@ -273,4 +273,454 @@ theorem stage2 (c64 : Nat) (hc : unpack .f64 c64 = .fin false 4503599627370496 (
   have : (E + 6 - (E + -46)).toNat = 52 := by omega
   rw [this]
 
+/-! ## stages 3–5 when the addition of 0.5 is exact (`|64·f| ≥ 1/2`) -/
+
+theorem stage3A (half : Nat) (hh : unpack .f64 half = .fin false 4503599627370496 (-53))
+    (s : Bool) (mn a : Nat) (hmn1 : 8388608 ≤ mn) (hmn2 : mn < 16777216) (ha : a ≤ 14) :
+    Num.add .f64 (pack64 s (mn * 536870912) ((a : Int) - 53)) half =
+      (let Z' : Int := (if s then -(mn : Int) else (mn : Int)) + ((2^(23 - a) : Nat) : Int)
+       if Z' = 0 then 0 else roundPack .f64 (decide (Z' < 0)) (Z'.natAbs * 2^(29 + a)) (-53)) := by
+  have hu := unpack_pack64 s (mn * 536870912) ((a : Int) - 53) (by omega) (by omega) (by omega) (by omega)
+  rw [add_fin_fin _ _ _ _ _ _ _ _ _ hu hh]
+  have he0 : (if (a : Int) - 53 ≤ -53 then (a : Int) - 53 else -53) = -53 := by split <;> omega
+  simp only [he0]
+  have t1 : ((a : Int) - 53 - -53).toNat = a := by omega
+  have t2 : ((-53 : Int) - -53).toNat = 0 := by omega
+  simp only [t1, t2, Nat.pow_zero, Nat.mul_one, Bool.and_false, Bool.false_eq_true, if_false]
+  -- factor out 2^(29+a)
+  have hp : 0 < 2^(29 + a) := Nat.two_pow_pos _
+  have e1 : mn * 536870912 * 2^a = mn * 2^(29 + a) := by
+    rw [Nat.pow_add, Nat.mul_assoc]
+  have e2 : (4503599627370496 : Nat) = 2^(23 - a) * 2^(29 + a) := by
+    rw [← Nat.pow_add]; have : 23 - a + (29 + a) = 52 := by omega
+    rw [this]
+  rw [e1]
+  conv => lhs; rw [e2]
+  generalize 2^(29 + a) = P at *
+  generalize 2^(23 - a) = R at *
+  have hz : ((if s then -((mn * P : Nat) : Int) else ((mn * P : Nat) : Int)) + ((R * P : Nat) : Int)) =
+      ((if s then -(mn : Int) else (mn : Int)) + (R : Int)) * (P : Int) := by
+    cases s
+    · simp only [Bool.false_eq_true, if_false, Int.natCast_mul, Int.add_mul]
+    · simp only [if_true, Int.natCast_mul, Int.add_mul, Int.neg_mul]
+  rw [hz]
+  generalize ((if s then -(mn : Int) else (mn : Int)) + (R : Int)) = Z'
+  have hP : (P : Int) ≠ 0 := by omega
+  by_cases h0 : Z' = 0
+  · subst h0; simp [withSign]
+  · have hne : ¬ (Z' * (P : Int) = 0) := by
+      intro h; rcases Int.mul_eq_zero.1 h with h | h
+      · exact h0 h
+      · exact hP h
+    simp only [beq_iff_eq, hne, h0, if_false]
+    have hneg : decide (Z' * (P : Int) < 0) = decide (Z' < 0) := by
+      have hPpos : (0 : Int) < P := by omega
+      by_cases hz0 : Z' < 0
+      · have : Z' * (P : Int) < 0 := Int.mul_neg_of_neg_of_pos hz0 hPpos
+        simp [hz0, this]
+      · have : 0 ≤ Z' * (P : Int) := Int.mul_nonneg (by omega) (by omega)
+        have h' : ¬ (Z' * (P : Int) < 0) := by omega
+        simp [hz0, h']
+    rw [hneg, Int.natAbs_mul, Int.natAbs_natCast]
+
+
+/-- the integer-valued binary64 `±q` as `floor` produces it -/
+def int64 (k : Int) : Nat := roundPack .f64 (decide (k < 0)) k.natAbs 0
+
+/-- floor of a nonzero `±w·2^(a-24)` given as the (unnormalised) sum of stage 3 -/
+theorem stage4A_nz (sz : Bool) (w a : Nat) (hw0 : 0 < w) (hw : w < 33554432) (ha : a ≤ 14) :
+    roundPack .f64 sz (w * 2^(29 + a)) (-53) < 18446744073709551616 ∧
+    Num.floor .f64 (roundPack .f64 sz (w * 2^(29 + a)) (-53)) =
+      roundPack .f64 sz
+        (if sz && w % 2^(24 - a) != 0 then w / 2^(24 - a) + 1 else w / 2^(24 - a)) 0 := by
+  obtain ⟨jz, kz, hjk, h1, h2⟩ := exists_jk64 w hw0 (by omega)
+  obtain ⟨hq1, hq2⟩ := norm64 w jz kz hjk h1 h2
+  have hjz : jz < 25 := by
+    rcases Nat.lt_or_ge jz 25 with h | h
+    · exact h
+    · have := Nat.pow_le_pow_right (n := 2) (by omega) h
+      have c : (2:Nat)^25 = 33554432 := by decide
+      rw [c] at this
+      clear c
+      omega
+  have hpk : roundPack .f64 sz (w * 2^(29 + a)) (-53) = pack64 sz (w * 2^kz) ((a : Int) - 24 - kz) := by
+    apply roundPack64_exact _ _ _ _ _ hq1 hq2 (by omega) (by omega)
+    by_cases hc : kz ≥ a + 29
+    · left
+      refine ⟨by omega, ?_⟩
+      have : ((-53 : Int) - ((a : Int) - 24 - kz)).toNat = kz - (29 + a) := by omega
+      rw [this, Nat.mul_assoc, ← Nat.pow_add]
+      congr 2; omega
+    · right
+      refine ⟨by omega, ?_⟩
+      have : ((a : Int) - 24 - kz - -53).toNat = (29 + a) - kz := by omega
+      rw [this, Nat.mul_assoc, ← Nat.pow_add]
+      congr 2; omega
+  rw [hpk]
+  refine ⟨pack64_lt _ _ _ hq2 (by omega), ?_⟩
+  have hu := unpack_pack64 sz (w * 2^kz) ((a : Int) - 24 - kz) hq1 hq2 (by omega) (by omega)
+  rw [floor_fin _ _ _ _ _ hu, if_neg (by omega)]
+  have hsh : (-((a : Int) - 24 - kz)).toNat = (24 - a) + kz := by omega
+  simp only [hsh]
+  have hp := Nat.two_pow_pos kz
+  rw [Nat.pow_add, Nat.mul_div_mul_right _ _ hp, Nat.mul_mod_mul_right]
+  have hr : (w % 2^(24 - a) * 2^kz != 0) = (w % 2^(24 - a) != 0) := by
+    by_cases h0 : w % 2^(24 - a) = 0
+    · rw [h0, Nat.zero_mul]
+    · have : w % 2^(24 - a) * 2^kz ≠ 0 := Nat.mul_ne_zero h0 (by omega)
+      rw [bne_iff_ne.2 this, bne_iff_ne.2 h0]
+  rw [hr]
+
+
+/-- the integer `floor` computes from magnitude `w`, unit `P` and sign: `k = ⌊±w / P⌋` -/
+theorem floor_spec (w P : Nat) (hP : 0 < P) (sz : Bool) (hw : 0 < w) :
+    ∀ q' : Nat, q' = (if sz && w % P != 0 then w / P + 1 else w / P) →
+    ∀ k : Int, k = (if sz then -(q' : Int) else (q' : Int)) →
+    ∀ Z : Int, Z = (if sz then -(w : Int) else (w : Int)) →
+      k * P ≤ Z ∧ Z < (k + 1) * P ∧ (decide (k < 0)) = (sz && decide (0 < q')) ∧ k.natAbs = q' ∧
+        (sz = true → 0 < q') := by
+  intro q' hq' k hk Z hZ
+  have hdm := Nat.div_add_mod w P
+  have hr := Nat.mod_lt w hP
+  generalize w / P = q0 at *
+  generalize w % P = r at *
+  have hdm' : (q0 : Int) * (P : Int) + r = w := by
+    have : ((P * q0 + r : Nat) : Int) = (w : Int) := by rw [hdm]
+    rw [Int.natCast_add, Int.natCast_mul, Int.mul_comm] at this
+    exact this
+  generalize hX : (q0 : Int) * (P : Int) = X at *
+  have hXnn : 0 ≤ X := by rw [← hX]; exact Int.mul_nonneg (by omega) (by omega)
+  have hq0pos : r = 0 → 0 < q0 := by
+    intro h0
+    rcases Nat.eq_zero_or_pos q0 with h | h
+    · subst h; simp at hX; omega
+    · exact h
+  cases sz
+  · simp only [Bool.false_and, Bool.false_eq_true, if_false] at hq' hk hZ
+    subst hq' hk hZ
+    rw [Int.add_mul, Int.one_mul, hX]
+    refine ⟨by omega, by omega, by simp <;> omega, by omega, by intro h; cases h⟩
+  · simp only [Bool.true_and, if_true] at hq' hk hZ
+    by_cases h0 : r = 0
+    · have hb : (r != 0) = false := by simp [h0]
+      rw [hb] at hq'
+      simp only [Bool.false_eq_true, if_false] at hq'
+      have := hq0pos h0
+      subst hq' hk hZ
+      rw [Int.add_mul, Int.one_mul, Int.neg_mul, hX]
+      refine ⟨by omega, by omega, by simp <;> omega, by omega, by intro _; omega⟩
+    · have hb : (r != 0) = true := bne_iff_ne.2 h0
+      rw [hb] at hq'
+      simp only [if_true] at hq'
+      subst hq' hk hZ
+      have e1 : -(((q0 + 1 : Nat)) : Int) * (P : Int) = -X - P := by
+        rw [Int.natCast_add, Int.neg_mul, Int.add_mul, hX]; simp; omega
+      have e2 : (-(((q0 + 1 : Nat)) : Int) + 1) * (P : Int) = -X := by
+        rw [Int.natCast_add]
+        have : (-((q0 : Int) + ((1 : Nat) : Int)) + 1) = -(q0 : Int) := by omega
+        rw [this, Int.neg_mul, hX]
+      rw [e1, e2]
+      refine ⟨by omega, by omega, by simp <;> omega, by omega, by intro _; omega⟩
+
+
+theorem unpack64_zero : unpack .f64 0 = .fin false 0 (-1074) := by
+  rw [unpack_f64]; simp [negB64]
+theorem roundPack_zero (f : Fmt) (neg : Bool) (e : Int) : roundPack f neg 0 e = withSign f neg 0 := by
+  simp [roundPack]
+theorem floor_zero64 : Num.floor .f64 0 = 0 := by
+  rw [floor_fin _ _ _ _ _ unpack64_zero, if_neg (by omega)]
+  simp only [Nat.zero_div, Nat.zero_mod, Bool.false_and, Bool.false_eq_true, if_false, roundPack_zero,
+    withSign]
+theorem int64_zero : int64 0 = 0 := by
+  simp [int64, roundPack_zero, withSign]
+
+/-- stages 3 and 4 when `|64·f| ≥ 1/2`: `floor(y + 0.5)` is the integer `k = ⌊Z'/2^(24-a)⌋` where
+    `Z'·2^(a-24) = 64·f + 1/2` exactly -/
+theorem stage34A (half : Nat) (hh : unpack .f64 half = .fin false 4503599627370496 (-53))
+    (s : Bool) (mn a : Nat) (hmn1 : 8388608 ≤ mn) (hmn2 : mn < 16777216) (ha : a ≤ 14) :
+    ∃ k : Int,
+      Num.add .f64 (pack64 s (mn * 536870912) ((a : Int) - 53)) half < 18446744073709551616 ∧
+      Num.floor .f64 (Num.add .f64 (pack64 s (mn * 536870912) ((a : Int) - 53)) half) = int64 k ∧
+      k * ((2^(24 - a) : Nat) : Int) ≤ (if s then -(mn : Int) else (mn : Int)) + ((2^(23 - a) : Nat) : Int) ∧
+      (if s then -(mn : Int) else (mn : Int)) + ((2^(23 - a) : Nat) : Int) <
+        (k + 1) * ((2^(24 - a) : Nat) : Int) := by
+  rw [stage3A half hh s mn a hmn1 hmn2 ha]
+  have hR : 2^(23 - a) ≤ 8388608 := by
+    have := Nat.pow_le_pow_right (n := 2) (by omega) (show 23 - a ≤ 23 by omega)
+    have c : (2:Nat)^23 = 8388608 := by decide
+    rw [c] at this; exact this
+  have hP := Nat.two_pow_pos (24 - a)
+  simp only []
+  generalize hZ : (if s then -(mn : Int) else (mn : Int)) + ((2^(23 - a) : Nat) : Int) = Z'
+  by_cases h0 : Z' = 0
+  · refine ⟨0, ?_, ?_, ?_, ?_⟩
+    · rw [if_pos h0]; omega
+    · rw [if_pos h0, floor_zero64, int64_zero]
+    · rw [h0]; omega
+    · rw [h0]; omega
+  · rw [if_neg h0]
+    have hw0 : 0 < Z'.natAbs := by omega
+    have hw : Z'.natAbs < 33554432 := by
+      generalize 2^(23 - a) = R at *
+      cases s
+      · simp only [Bool.false_eq_true, ↓reduceIte] at hZ; omega
+      · simp only [↓reduceIte] at hZ; omega
+    obtain ⟨hlt, hfl⟩ := stage4A_nz (decide (Z' < 0)) Z'.natAbs a hw0 hw ha
+    have hZeq : Z' = if decide (Z' < 0) then -(Z'.natAbs : Int) else (Z'.natAbs : Int) := by
+      by_cases hn : Z' < 0 <;> simp [hn] <;> omega
+    generalize hq' : (if (decide (Z' < 0) && Z'.natAbs % 2 ^ (24 - a) != 0) = true
+      then Z'.natAbs / 2 ^ (24 - a) + 1 else Z'.natAbs / 2 ^ (24 - a)) = q' at hfl
+    generalize hk : (if decide (Z' < 0) then -(q' : Int) else (q' : Int)) = k
+    obtain ⟨hs1, hs2, hs3, hs4, hs5⟩ := floor_spec Z'.natAbs (2^(24 - a)) hP (decide (Z' < 0)) hw0
+      q' hq'.symm k hk.symm Z' hZeq
+    refine ⟨k, hlt, ?_, hs1, hs2⟩
+    rw [hfl]
+    unfold int64
+    rw [hs3, hs4]
+    by_cases hn : Z' < 0
+    · have := hs5 (by simp [hn])
+      simp [hn, this]
+    · simp [hn]
+
+
+/-- stage 5: `float32(x)` of an integer-valued binary64 `x = ±q`, `q < 2^24`, is `float32(±q)` -/
+theorem stage5 (k : Int) (hk : k.natAbs < 16777216) :
+    int64 k < 18446744073709551616 ∧ convert .f64 .f32 (int64 k) = Num.ofInt .f32 k := by
+  by_cases h0 : k = 0
+  · subst h0
+    rw [int64_zero, convert_fin _ _ _ _ _ _ unpack64_zero, roundPack_zero]
+    refine ⟨by omega, ?_⟩
+    simp [withSign, Num.ofInt]
+  · have hq0 : 0 < k.natAbs := by omega
+    obtain ⟨jq, kq, hjk, h1, h2⟩ := exists_jk64 k.natAbs hq0 (by omega)
+    obtain ⟨hq1, hq2⟩ := norm64 k.natAbs jq kq hjk h1 h2
+    have hjq : jq < 24 := by
+      rcases Nat.lt_or_ge jq 24 with h | h
+      · exact h
+      · have := Nat.pow_le_pow_right (n := 2) (by omega) h
+        have c : (2:Nat)^24 = 16777216 := by decide
+        rw [c] at this
+        clear c
+        omega
+    have hpk : int64 k = pack64 (decide (k < 0)) (k.natAbs * 2^kq) (-(kq : Int)) := by
+      unfold int64
+      apply roundPack64_exact _ _ _ _ _ hq1 hq2 (by omega) (by omega)
+      left
+      refine ⟨by omega, ?_⟩
+      have : ((0 : Int) - -(kq : Int)).toNat = kq := by omega
+      rw [this]
+    rw [hpk]
+    refine ⟨pack64_lt _ _ _ hq2 (by omega), ?_⟩
+    have hu := unpack_pack64 (decide (k < 0)) (k.natAbs * 2^kq) (-(kq : Int)) hq1 hq2 (by omega) (by omega)
+    have hn1 : k.natAbs * 2^kq ≠ 0 := by omega
+    have hn2 : k.natAbs ≠ 0 := by omega
+    rw [convert_fin _ _ _ _ _ _ hu, roundPack_pos _ _ _ _ hn1]
+    have hki : (k == 0) = false := by simp [h0]
+    simp only [Num.ofInt, hki, Bool.false_eq_true, if_false]
+    rw [roundPack_pos _ _ _ _ hn2]
+    -- both sides are the exactly normalised 24-bit mantissa
+    have hmag : roundMag .f32 (k.natAbs * 2^kq) (-(kq : Int)) = roundMag .f32 k.natAbs 0 := by
+      obtain ⟨hl, hl1, hl2⟩ := roundMag_shl k.natAbs 0 jq (23 - jq) (by omega) h1 h2 (by omega) (by omega)
+      rw [hl]
+      have hsplit : k.natAbs * 2^kq = k.natAbs * 2^(23 - jq) * 2^29 := by
+        rw [Nat.mul_assoc, ← Nat.pow_add]; congr 2; omega
+      rw [hsplit]
+      have hr := roundMag_shr' (k.natAbs * 2^(23 - jq)) (-(kq : Int)) 29 (by omega) (by omega) hl2
+        (Or.inl hl1) (by omega)
+      rw [hr]
+      have e1 : (-(kq : Int) + ((29 : Nat) : Int) + 149).toNat = 126 + jq := by omega
+      have e2 : ((0 : Int) - ((23 - jq : Nat) : Int) + 149).toNat = 126 + jq := by omega
+      rw [e1, e2, if_neg (by omega)]
+    rw [hmag]
+
+/-! ## stages 3–4 when `|64·f| < 1/2`: the sum may round, its floor is still 0 -/
+
+/-- floor of a non-negative binary64 below 1.0 is +0 -/
+theorem floor_small (b : Nat) (hb : b < 4607182418800017408) : Num.floor .f64 b = 0 := by
+  have hu := unpack_f64 b
+  have hneg : negB64 b = false := by
+    unfold negB64
+    have : b / 9223372036854775808 % 2 = 0 := by omega
+    rw [this]; rfl
+  have hex : b / 4503599627370496 % 2048 = b / 4503599627370496 := by omega
+  rw [hneg, hex, if_neg (by omega)] at hu
+  have hzero : ∀ m sh : Nat, m < 9007199254740992 → 53 ≤ sh →
+      roundPack .f64 false (if false && m % 2^sh != 0 then m / 2^sh + 1 else m / 2^sh) 0 = 0 := by
+    intro m sh hm hsh
+    have hp : 9007199254740992 ≤ 2^sh := by
+      have := Nat.pow_le_pow_right (n := 2) (by omega) hsh
+      have c : (2:Nat)^53 = 9007199254740992 := by decide
+      rw [c] at this; exact this
+    have : m / 2^sh = 0 := Nat.div_eq_of_lt (by omega)
+    simp only [Bool.false_and, Bool.false_eq_true, if_false, this, roundPack_zero, withSign]
+  by_cases h0 : b / 4503599627370496 = 0
+  · rw [if_pos h0] at hu
+    rw [floor_fin _ _ _ _ _ hu, if_neg (by omega)]
+    have : (-(-1074 : Int)).toNat = 1074 := by omega
+    simp only [this]
+    exact hzero _ 1074 (by omega) (by omega)
+  · rw [if_neg h0] at hu
+    rw [floor_fin _ _ _ _ _ hu, if_neg (by omega)]
+    generalize hsh : (-(((b / 4503599627370496 : Nat) : Int) - 1075)).toNat = sh
+    simp only []
+    exact hzero _ sh (by omega) (by omega)
+
+
+theorem lt_pow_bitLen (n : Nat) (hn : 0 < n) : n < 2^(bitLen n) := by
+  have h0 : n ≠ 0 := by omega
+  unfold bitLen
+  have : (n == 0) = false := by simp [h0]
+  rw [this]
+  exact Nat.lt_log2_self
+
+theorem bitLen_le_of_lt (n t : Nat) (h : n < 2^t) : bitLen n ≤ t := by
+  unfold bitLen
+  split
+  · omega
+  · rename_i h0
+    have hn : n ≠ 0 := by simpa using h0
+    have := (Nat.log2_lt hn).2 h
+    omega
+
+theorem roundMag_f64_q (m : Nat) (e fe : Int)
+    (hfe : fe = if e + (bitLen m : Int) - 53 < -1074 then -1074 else e + (bitLen m : Int) - 53) :
+    ∃ q : Nat,
+      q = (if fe ≤ e then m * 2 ^ (e - fe).toNat
+        else
+          if m % 2 ^ (fe - e).toNat > 2 ^ ((fe - e).toNat - 1) ||
+              (m % 2 ^ (fe - e).toNat == 2 ^ ((fe - e).toNat - 1) && m / 2 ^ (fe - e).toNat % 2 == 1)
+          then m / 2 ^ (fe - e).toNat + 1 else m / 2 ^ (fe - e).toNat) ∧
+      roundMag .f64 m e =
+        if (fe + 1074).toNat * 4503599627370496 + q ≥ 9218868437227405312 then 9218868437227405312
+        else (fe + 1074).toNat * 4503599627370496 + q :=
+  ⟨_, rfl, roundMag_f64 m e fe hfe⟩
+
+/-- generic upper bound: the rounded mantissa never exceeds `2^53` -/
+theorem roundMag64_le (n : Nat) (e : Int) (hn : 0 < n) (fe : Int)
+    (hfe : fe = if e + (bitLen n : Int) - 53 < -1074 then -1074 else e + (bitLen n : Int) - 53) :
+    roundMag .f64 n e ≤ (fe + 1074).toNat * 4503599627370496 + 9007199254740992 := by
+  obtain ⟨q, hq, hr⟩ := roundMag_f64_q n e fe hfe
+  rw [hr]
+  have hlt := lt_pow_bitLen n hn
+  generalize bitLen n = bl at *
+  have c53 : (2:Nat)^53 = 9007199254740992 := by decide
+  have hqle : q ≤ 9007199254740992 := by
+    rw [hq]
+    by_cases hle : fe ≤ e
+    · rw [if_pos hle]
+      have hd : bl + (e - fe).toNat ≤ 53 := by split at hfe <;> omega
+      have h1 : n * 2^(e - fe).toNat < 2^bl * 2^(e - fe).toNat :=
+        (Nat.mul_lt_mul_right (Nat.two_pow_pos _)).2 hlt
+      rw [← Nat.pow_add] at h1
+      have h2 := Nat.pow_le_pow_right (n := 2) (by omega) hd
+      rw [c53] at h2
+      clear c53
+      omega
+    · rw [if_neg hle]
+      have hd : bl ≤ (fe - e).toNat + 53 := by split at hfe <;> omega
+      have h2 := Nat.pow_le_pow_right (n := 2) (by omega) hd
+      rw [Nat.pow_add, c53] at h2
+      have h3 : n / 2^(fe - e).toNat < 9007199254740992 :=
+        Nat.div_lt_of_lt_mul (by omega)
+      clear c53
+      split <;> omega
+  clear c53 hq
+  split <;> omega
+
+
+theorem withSign64_false (x : Nat) : withSign .f64 false x = x := by
+  simp [withSign]
+
+/-- rounding `2^52·P − M` at exponent `E'` (value just below 1/2) stays below 1.0 -/
+theorem tiny_neg (M : Nat) (E' : Int) (d : Nat) (hd : (d : Int) = -53 - E') (hd1 : 1 ≤ d)
+    (hM1 : 4503599627370496 ≤ M) (hM2 : M < 9007199254740992) (_hE1 : -1074 ≤ E') :
+    roundMag .f64 (4503599627370496 * 2^d - M) E' < 4607182418800017408 := by
+  have hP : 2 ≤ 2^d := by
+    have := Nat.pow_le_pow_right (n := 2) (by omega) hd1
+    simpa using this
+  have hZ0 : 0 < 4503599627370496 * 2^d - M := by omega
+  have hZlt : 4503599627370496 * 2^d - M < 2^(52 + d) := by
+    rw [Nat.pow_add]
+    have c : (2:Nat)^52 = 4503599627370496 := by decide
+    rw [c]; clear c; omega
+  have hbl := bitLen_le_of_lt _ _ hZlt
+  have := roundMag64_le (4503599627370496 * 2^d - M) E' hZ0 _ rfl
+  generalize bitLen (4503599627370496 * 2^d - M) = bl at *
+  generalize roundMag .f64 (4503599627370496 * 2^d - M) E' = R at *
+  split at this <;> omega
+
+/-- rounding `2^52·P + M` at exponent `E'` (value in [1/2, 1)) stays below 1.0 -/
+theorem tiny_pos (M : Nat) (E' : Int) (d : Nat) (hd : (d : Int) = -53 - E') (hd1 : 1 ≤ d)
+    (hM1 : 4503599627370496 ≤ M) (hM3 : M ≤ 9007198717870080) (_hE1 : -1074 ≤ E') :
+    roundMag .f64 (4503599627370496 * 2^d + M) E' < 4607182418800017408 := by
+  have hP : 2 ≤ 2^d := by
+    have := Nat.pow_le_pow_right (n := 2) (by omega) hd1
+    simpa using this
+  have hPpos : 0 < 2^d := by omega
+  have c52 : (2:Nat)^52 = 4503599627370496 := by decide
+  have hbl : bitLen (4503599627370496 * 2^d + M) = (52 + d) + 1 := by
+    apply bitLen_eq
+    · rw [Nat.pow_add, c52]; clear c52; omega
+    · have : 52 + d + 1 = 53 + d := by omega
+      rw [this, Nat.pow_add]
+      have c53 : (2:Nat)^53 = 9007199254740992 := by decide
+      rw [c53]; clear c52 c53; omega
+  clear c52
+  have hfe : (-53 : Int) = if E' + (bitLen (4503599627370496 * 2^d + M) : Int) - 53 < -1074 then -1074
+      else E' + (bitLen (4503599627370496 * 2^d + M) : Int) - 53 := by
+    rw [hbl]; split <;> omega
+  obtain ⟨q, hq, hr⟩ := roundMag_f64_q _ E' (-53) hfe
+  rw [hr]
+  have hsh : ((-53 : Int) - E').toNat = d := by omega
+  rw [if_neg (by omega), hsh] at hq
+  have hq0 : (4503599627370496 * 2^d + M) / 2^d = 4503599627370496 + M / 2^d := by
+    rw [Nat.mul_comm]; exact Nat.mul_add_div hPpos _ _
+  have hMd : M / 2^d ≤ M / 2 := Nat.div_le_div_left hP (by omega)
+  have hqle : q ≤ 4503599627370496 + M / 2 + 1 := by
+    rw [hq, hq0]; split <;> omega
+  clear hq hr
+  split <;> omega
+
+/-- stages 3 and 4 when `|64·f| < 1/2`: the sum rounds to something in (0, 1), whose floor is +0 -/
+theorem stage34B (half : Nat) (hh : unpack .f64 half = .fin false 4503599627370496 (-53))
+    (s : Bool) (M : Nat) (E' : Int) (hM1 : 4503599627370496 ≤ M) (hM3 : M ≤ 9007198717870080)
+    (hE1 : -1074 ≤ E') (hE2 : E' ≤ -54) :
+    Num.add .f64 (pack64 s M E') half < 18446744073709551616 ∧
+    Num.floor .f64 (Num.add .f64 (pack64 s M E') half) = 0 := by
+  have hu := unpack_pack64 s M E' hM1 (by omega) hE1 (by omega)
+  have hlt : Num.add .f64 (pack64 s M E') half < 4607182418800017408 := by
+    rw [add_fin_fin _ _ _ _ _ _ _ _ _ hu hh]
+    have he0 : (if E' ≤ -53 then E' else -53) = E' := by rw [if_pos (by omega)]
+    simp only [he0]
+    have t1 : (E' - E').toNat = 0 := by omega
+    obtain ⟨d, hd⟩ : ∃ d : Nat, (d : Int) = -53 - E' := ⟨(-53 - E').toNat, by omega⟩
+    have t2 : ((-53 : Int) - E').toNat = d := by omega
+    simp only [t1, t2, Nat.pow_zero, Nat.mul_one, Bool.false_eq_true, if_false, Bool.and_false]
+    have hP : 2 ≤ 2^d := by
+      have := Nat.pow_le_pow_right (n := 2) (by omega) (show 1 ≤ d by omega)
+      simpa using this
+    cases s
+    · simp only [Bool.false_eq_true, if_false]
+      have e1 : ((M : Int) + ((4503599627370496 * 2^d : Nat) : Int)) =
+          ((4503599627370496 * 2^d + M : Nat) : Int) := by
+        rw [Int.natCast_add]; omega
+      rw [e1]
+      have hz : ¬ (((4503599627370496 * 2^d + M : Nat) : Int) == 0) = true := by
+        simp only [beq_iff_eq]; omega
+      have hn : ¬ (((4503599627370496 * 2^d + M : Nat) : Int) < 0) := by omega
+      rw [if_neg hz, Int.natAbs_natCast, roundPack_pos _ _ _ _ (by omega)]
+      simp only [hn, decide_false, withSign64_false]
+      exact tiny_pos M E' d hd (by omega) hM1 hM3 hE1
+    · simp only [if_true]
+      have e1 : (-(M : Int) + ((4503599627370496 * 2^d : Nat) : Int)) =
+          ((4503599627370496 * 2^d - M : Nat) : Int) := by omega
+      rw [e1]
+      have hz : ¬ (((4503599627370496 * 2^d - M : Nat) : Int) == 0) = true := by
+        simp only [beq_iff_eq]; omega
+      have hn : ¬ (((4503599627370496 * 2^d - M : Nat) : Int) < 0) := by omega
+      rw [if_neg hz, Int.natAbs_natCast, roundPack_pos _ _ _ _ (by omega)]
+      simp only [hn, decide_false, withSign64_false]
+      exact tiny_neg M E' d hd (by omega) hM1 (by omega) hE1
+  exact ⟨by omega, floor_small _ hlt⟩
+
 end Ivg.Quant
